@@ -20,3 +20,19 @@ func OnceFunc(f func()) func() {
 	var o Once
 	return func() { o.Do(f) }
 }
+
+// Map and Pool are not modelled operation by operation: they are provided as
+// the real types (their internal synchronisation is invisible to the
+// scheduler, which is sound for code that uses them as a black box but gives
+// no scheduling points inside them).
+type (
+	Map  = sync.Map
+	Pool = sync.Pool
+)
+
+// OnceValue mirrors sync.OnceValue.
+func OnceValue[T any](f func() T) func() T {
+	var o Once
+	var v T
+	return func() T { o.Do(func() { v = f() }); return v }
+}
